@@ -62,8 +62,16 @@ def sample_of(job, k=0):
 # ... and C02 ("non-null memory of the full size") reports a throwing function that returned null; C01 ("inside
 # owned memory") a fixed storage that was overrun; C03 names joint memory among the fixed sources: its check runs the
 # joint-memory exhaustion scenarios of the construct driver and reports writes outside the joint block
+# ... C09 names the smart-pointer helpers: its check runs them with throwing constructors (driver `construct`) and
+# reports memory that did not go back as it was taken; C10 names unique_ptr / shared_ptr: its check runs the smart
+# pointer operations of the compose driver and reports C09's release guards; C12 covers "any stateful allocator":
+# its check moves the adapters too (same guards) and reports a moved-from object that raises a leak report; C17 demands
+# fills "without touching neighbouring live memory": its check runs joint allocations between fences
 ALSO_RULES_OF = {"C02": ("C03/ThrowingNeverNull",),
-                 "C05": ("C16", "C14/AllFreedAtExit", "C14/ShrinkRequestReturnsBlocks", "C14/BlocksKeptForReuse", "C09/UpstreamBlocksReturnedAtEnd"), "C12": ("C01", "C03"),
+                 "C09": ("C20/MemoryReturnedSameShape",),
+                 "C10": ("C09/ReleaseSameShape", "C09/ReleaseOnce", "C09/EverythingReleasedToLeaves"),
+                 "C17": ("C11/NoWriteOutsideBlock", "C11/PieceAligned"),
+                 "C05": ("C16", "C14/AllFreedAtExit", "C14/ShrinkRequestReturnsBlocks", "C14/BlocksKeptForReuse", "C09/UpstreamBlocksReturnedAtEnd"), "C12": ("C01", "C03", "C15/MovedFromSilent", "C09/ReleaseSameShape", "C09/ReleaseOnce", "C09/EverythingReleasedToLeaves"),
                  "C06": ("C01",), "C07": ("C01",), "C03": ("C01", "C11/NoWriteOutsideBlock", "C11/PieceAfterObjectInsideBlock"),
                  "C01": ("C03/FixedStorageNeverOverrun", "C14/TemporaryMemoryDisjoint", "C14/ContentIntactUntilScopeEnds", "C14/NoTwoLiveThreadsShareAStack",
                          "C14/CasResultAsModel", "C14/HeldStackMarkedInUse")}
@@ -170,6 +178,9 @@ def run_seq_property(prop, tier, seed):
     if prop in ("C03", "C05"):
         from . import plans_compose
         jobs += plans_compose.extra_jobs(prop, tier, seed)
+    if prop == "C12":
+        from . import plans_compose
+        jobs += plans_compose.extra_jobs(prop, tier, seed)
     if prop == "C03":
         # joint memory is one of the fixed sources C03 names: exact fit, one byte / one element short, the
         # element-by-element range constructor running out (driver `construct`, contract ConstructTrace)
@@ -196,7 +207,18 @@ def cmd_run(args):
     if prop in registry.PROPS:
         from . import models
         spec = registry.PROPS[prop]
-        return run_trace_property(prop, tier, seed, spec["jobs"](prop, tier, seed), models.MODELS.get(prop, ()),
+        jobs = spec["jobs"](prop, tier, seed)
+        # scenarios of another driver that the property's text covers as well (see ALSO_RULES_OF)
+        if prop == "C09":
+            from . import plans_construct
+            jobs += plans_construct.jobs_c09(prop, tier, seed)
+        if prop == "C10":
+            from . import plans_compose
+            jobs += plans_compose.extra_jobs(prop, tier, seed)
+        if prop == "C17":
+            from . import plans_construct
+            jobs += plans_construct.jobs_c17(prop, tier, seed)
+        return run_trace_property(prop, tier, seed, jobs, models.MODELS.get(prop, ()),
                                   spec.get("assumptions"), spec.get("rule"))
     raise InfraError("no check registered for " + prop)
 
